@@ -182,7 +182,35 @@ def run_case(sc) -> Result:
     return res
 
 
+def enum_core(shard, nshards):
+    """one execute per scenario: payload flavour x calling context x every outcome (each exception class, each return value)"""
+    outcomes = [["return", "None"]] + [["return", n] for n in RETURN_NAMES] + [["raise", n] for n in EXC_OK]
+    idx = 0
+    for caller, flavours in (("outside", ALL), ("threading", ALL), ("asyncio", ["trio", "threading"]), ("trio", ["asyncio", "threading"])):
+        for flv in flavours:
+            for end in outcomes:
+                idx += 1
+                if idx % nshards != shard:
+                    continue
+                payloads = [{"id": 100 + i, "flavour": f, "role": "bystander", "reg": {"how": "pre"}, "program": [["beat", 3, 1000000]], "end": ["forever"], "cleanup": {}}
+                            for i, f in enumerate(ALL)]
+                kind = "none" if end == ["return", "None"] else "ret" if end[0] == "return" else "exc"
+                payloads.append({"id": 1, "flavour": flv, "role": "executed", "caller": caller, "kind": kind, "end": end, "program": [], "reg": {"how": "execute"},
+                                 "cleanup": {}, "args": [1, {"tag": 7}], "kwargs": {"a": "x"}})
+                drivers = [[{"at_ms": 0, "op": "execute", "pid": 1}] if caller == "outside" else []]
+                if caller != "outside":
+                    payloads.append({"id": 200, "flavour": caller, "role": "caller", "reg": {"how": "pre"}, "program": [["execute", 1], ["beat", 3, 1000000]],
+                                     "end": ["forever"], "cleanup": {}})
+                drivers.append([{"at_ms": 0, "op": "await-ops", "kind": "execute", "n": 1, "timeout_ms": 20000}, {"at_ms": 0, "op": "mark", "name": "alive-check"},
+                                {"at_ms": 0, "op": "await-beats", "pids": [100, 101, 102], "k": 3, "timeout_ms": 5000},
+                                {"at_ms": 0, "op": "mark", "name": "before-shutdown"}, {"at_ms": 0, "op": "shutdown"}])
+                yield {"runner": "service", "accept_delay": 0.01, "switchinterval": None, "bound_s": BOUND, "linger_ms": 10, "payloads": payloads,
+                       "drivers": drivers, "direction": "asyncio->trio" if caller == "asyncio" else "trio->asyncio", "nexec": 1}
+
+
 def tests(tier):
-    t = [TestDef("scenarios", run_case, strategy=scenario(), quick=480, thorough=15000, shards_quick=16, shrink_budget=40, slow=True)]
-    t[0].replay_runs = 10
+    t = [TestDef("scenarios", run_case, strategy=scenario(), quick=480, thorough=15000, shards_quick=16, shrink_budget=40, slow=True),
+         TestDef("exhaustive-core", run_case, enumerate=enum_core, exhaustive=True, shards_quick=16, shards_thorough=16)]
+    for td in t:
+        td.replay_runs = 10
     return t
